@@ -26,7 +26,20 @@ func c04MultiPath(ctx *Ctx) error {
 		// the template begins with a variable, and its value has a colon (a first path segment with a colon must not be
 		// read as a URL scheme when the client resolves the path against the server URL)
 		"/{tenant}/items/{item}/detail": J{"get": J{"operationId": "getItem", "parameters": []interface{}{param("tenant", str), param("item", str)}, "responses": J{"204": J{"description": "d"}}}},
-		"/a/{b}/b/{a}/{ab}":             J{"get": J{"operationId": "getAb", "parameters": []interface{}{param("ab", num), param("a", str), param("b", str)}, "responses": J{"204": J{"description": "d"}}}},
+		// query parameters (pass-through and JSON content) next to a form body that has fields of the same names: the
+		// parameters come from the query, whatever the body says, and are absent when the query does not have them
+		"/f1": J{"post": J{"operationId": "postForm", "parameters": []interface{}{
+			J{"name": "v", "in": "query", "content": J{"text/plain": J{"schema": J{"type": "string"}}}},
+			J{"name": "j", "in": "query", "content": J{"application/json": J{"schema": J{"type": "object", "properties": J{"a": J{"type": "string"}}}}}}},
+			"requestBody": J{"required": true, "content": J{"application/x-www-form-urlencoded": J{"schema": J{"type": "object", "properties": J{"v": J{"type": "string"}, "j": J{"type": "string"}, "w": J{"type": "string"}}}}}},
+			"responses":   J{"204": J{"description": "d"}}}},
+		// several optional cookie parameters in one request, two of them pass-through: each arrives with its own value
+		"/c2": J{"get": J{"operationId": "getCookies", "parameters": []interface{}{
+			J{"name": "trace", "in": "cookie", "content": J{"text/plain": J{"schema": J{"type": "string"}}}},
+			J{"name": "sid", "in": "cookie", "content": J{"text/plain": J{"schema": J{"type": "string"}}}},
+			J{"name": "zz", "in": "cookie", "schema": J{"type": "integer"}}},
+			"responses": J{"204": J{"description": "d"}}}},
+		"/a/{b}/b/{a}/{ab}": J{"get": J{"operationId": "getAb", "parameters": []interface{}{param("ab", num), param("a", str), param("b", str)}, "responses": J{"204": J{"description": "d"}}}},
 	}}
 	type cse struct {
 		fn   string
@@ -37,6 +50,10 @@ func c04MultiPath(ctx *Ctx) error {
 		{"NewGetVideoRequest", []interface{}{"http://h", "holiday", 42}, J{"name": "holiday", "id": 42}},
 		{"NewGetSubRequest", []interface{}{"http://h", 7, "news"}, J{"id": 7, "sub": "news"}},
 		{"NewGetAbRequest", []interface{}{"http://h", "bee", "ay", 3}, J{"b": "bee", "a": "ay", "ab": 3}},
+		{"NewPostFormRequestWithFormdataBody", []interface{}{"http://h", J{"v": "from-query", "j": J{"a": "q"}}, J{"v": "from-body", "j": "{\"a\":\"body\"}", "w": "x"}}, J{"params": J{"V": "from-query", "J": J{"A": "q"}}}},
+		{"NewPostFormRequestWithFormdataBody", []interface{}{"http://h", J{}, J{"v": "from-body", "j": "{\"a\":\"body\"}", "w": "x"}}, J{"params": J{"V": nil, "J": nil}}},
+		{"NewGetCookiesRequest", []interface{}{"http://h", J{"trace": "t-1", "sid": "42", "zz": 7}}, J{"params": J{"Trace": "t-1", "Sid": "42", "Zz": 7}}},
+		{"NewGetCookiesRequest", []interface{}{"http://h", J{"sid": "42"}}, J{"params": J{"Trace": nil, "Sid": "42", "Zz": nil}}},
 		{"NewGetItemRequest", []interface{}{"http://h", "acme:eu", "12:30"}, J{"tenant": "acme:eu", "item": "12:30"}},
 		{"NewGetItemRequest", []interface{}{"http://h", "a b:c", "x"}, J{"tenant": "a b:c", "item": "x"}},
 	}
